@@ -16,6 +16,22 @@
 //! Not compared: reflogs, FETCH_HEAD, pack layout, whether a tracking ref is symbolic or direct (counted as
 //! `symref_materialised`), how a rejection is reported, shallow boundaries after later rounds (git re-requests only changed
 //! tips, gitoxide all of them: both boundaries are what the server computed; counted as `shallow_boundary_differs_from_git`).
+//!
+//! Second scenario class `shallow-evolve` (directed, runs first with a share of the budget): a tiny server history (trunk of 4..9
+//! commits with old side branches/merges), the client starts as a depth-limited clone/fetch (depth 1..3, protocol 0|1|2), then 4..6
+//! rounds in which the server gains history that reaches BELOW the client's shallow boundary without passing through it: new
+//! branches forked off old commits (root included) with or without own commits, old side branches merged into tracked branches,
+//! tags on old commits, besides fast-forwards and the generic update rounds; every round is fetched by both twins WITHOUT depth
+//! arguments most of the time (the server must be told the boundary through `shallow <id>` lines, else it omits history it
+//! believes to be present), else with depth/deepen/unshallow. Oracles after every step are those above (in this class a
+//! connectivity failure reported by fsck gets the signature `connectivity|missing-objects-after-<op>-into-<shallow|complete|empty>`),
+//! plus rules on `$GIT_DIR/shallow` that hold independently of which tips a client re-requests (all scenario classes):
+//!  * a fetch without depth arguments from a complete server never changes the boundary (server sends no shallow-info): if git's
+//!    twin kept its shallow file, gitoxide's must be unchanged too,
+//!  * every entry of the shallow file names a commit that is present,
+//!  * after `--unshallow`, no entry remains that is reachable from a server branch the refspecs fetch (unless git's twin keeps it too).
+//! In this class depth/deepen requests are made only with tagOpt --no-tags/--tags, and a scenario with default tag following ends
+//! as soon as the two boundaries differ (auto-following depends on which old commits happen to be present).
 //! Domain restrictions (git quirks): later depth/deepen requests only with all-forced refspecs (boundaries may differ and git
 //! decides fast-forwards on truncated history); no auto-following together with negative refspecs; a detached server HEAD is never at a
 //! branch tip; no negative glob refspecs (gix-refspec rejects them when parsing).
@@ -88,6 +104,9 @@ const K_MOVE_TAG: u32 = 128;
 const K_DEL_TAG: u32 = 256;
 const K_MERGE: u32 = 512;
 const K_RELEASE: u32 = 1024;
+const K_FORK_OLD: u32 = 2048;
+const K_MERGE_OLD: u32 = 4096;
+const K_TAG_OLD: u32 = 8192;
 
 enum P {
     Id(String),
@@ -298,6 +317,171 @@ impl Srv {
         }
         git::ok_in(&self.path, &["update-ref", "--stdin"], batch.as_bytes())?;
         Ok(())
+    }
+
+    /// Tiny history for the `shallow-evolve` class: a trunk of 4..9 commits on `main` with side branches forked off and merged
+    /// back along the way, optionally more branches (at or behind the tip of main, or an unmerged side branch) and tags on old commits.
+    fn build_small(dir: &Path, r: &mut Rng) -> Result<Srv, String> {
+        git::init(dir, true)?;
+        let mut srv = Srv {
+            path: dir.to_path_buf(),
+            parents: HashMap::new(),
+            commits: Vec::new(),
+            branches: BTreeMap::new(),
+            tags: BTreeMap::new(),
+            next: 0,
+            time: 1_500_000_000,
+            skewed: false,
+            log: Vec::new(),
+        };
+        let n = 4 + r.usize(6);
+        let mut commits: Vec<NewCommit> = vec![NewCommit { parents: vec![] }];
+        let mut trunk: Vec<usize> = vec![0];
+        let mut side: Option<usize> = None;
+        for i in 1..n {
+            let prev = *trunk.last().expect("non-empty");
+            if side.is_none() && i + 1 < n && r.chance(1, 4) {
+                let mut p = prev;
+                for _ in 0..1 + r.usize(2) {
+                    commits.push(NewCommit { parents: vec![P::Mark(p)] });
+                    p = commits.len() - 1;
+                }
+                side = Some(p);
+            }
+            let mut parents = vec![P::Mark(prev)];
+            if let Some(s) = side {
+                if r.chance(1, 2) {
+                    parents.push(P::Mark(s));
+                    side = None;
+                }
+            }
+            commits.push(NewCommit { parents });
+            trunk.push(commits.len() - 1);
+        }
+        let tip = *trunk.last().expect("non-empty");
+        let mut ops = vec![RefOp::SetBranch("main".into(), RefTarget::Mark(tip))];
+        if r.chance(1, 2) {
+            // behind (or at) the tip of main: its history is shared with main's
+            let k = r.usize(4).min(trunk.len() - 1);
+            ops.push(RefOp::SetBranch("dev".into(), RefTarget::Mark(trunk[trunk.len() - 1 - k])));
+        }
+        if let Some(s) = side {
+            if r.chance(2, 3) {
+                ops.push(RefOp::SetBranch("topic".into(), RefTarget::Mark(s)));
+            }
+        }
+        if r.chance(1, 2) {
+            let at = trunk[r.usize(trunk.len())];
+            ops.push(RefOp::SetTag { name: "v1".into(), target: RefTarget::Mark(at), annotated: r.bool() });
+        }
+        if r.chance(1, 3) {
+            ops.push(RefOp::SetTag { name: "v2".into(), target: RefTarget::Mark(tip), annotated: r.bool() });
+        }
+        srv.apply(&commits, ops)?;
+        if r.chance(1, 4) {
+            git::ok(dir, &["repack", "-a", "-d", "-q"])?;
+        }
+        Ok(srv)
+    }
+
+    /// an old commit: the root, one of the older two thirds (creation order), or any
+    fn old_commit(&self, r: &mut Rng) -> String {
+        let n = self.commits.len();
+        match r.below(4) {
+            0 => self.commits[0].clone(),
+            1 | 2 => self.commits[r.usize((n * 2 / 3).max(1))].clone(),
+            _ => r.pick(&self.commits).clone(),
+        }
+    }
+
+    /// One update round of the `shallow-evolve` class: mostly history that attaches to OLD commits (new branches forked off them,
+    /// side branches grown from them and merged into tracked branches, tags on them), besides plain fast-forwards and merges of
+    /// existing branches. Returns the bitmask of update kinds.
+    fn evolve(&mut self, r: &mut Rng) -> Result<u32, String> {
+        let mut kinds = 0u32;
+        let mut commits: Vec<NewCommit> = Vec::new();
+        let mut ops: Vec<RefOp> = Vec::new();
+        let mut touched: BTreeSet<String> = BTreeSet::new();
+        self.log.push("-- round (evolve)".into());
+        let nops = 1 + r.usize(3);
+        for _ in 0..nops {
+            let bnames: Vec<String> = self.branches.keys().filter(|b| !touched.contains(&format!("b/{b}"))).cloned().collect();
+            match r.below(12) {
+                0..=2 if !bnames.is_empty() => {
+                    let b = r.pick(&bnames).clone();
+                    let mut parent = P::Id(self.branches[&b].clone());
+                    for _ in 0..1 + r.usize(3) {
+                        commits.push(NewCommit { parents: vec![parent] });
+                        parent = P::Mark(commits.len() - 1);
+                    }
+                    ops.push(RefOp::SetBranch(b.clone(), RefTarget::Mark(commits.len() - 1)));
+                    touched.insert(format!("b/{b}"));
+                    kinds |= K_FF;
+                }
+                3..=5 => {
+                    let free: Vec<&&str> = BRANCH_NAMES.iter().filter(|n| !self.branches.contains_key(**n) && !touched.contains(&format!("b/{n}"))).collect();
+                    if !free.is_empty() {
+                        let name = **r.pick(&free);
+                        let base = self.old_commit(r);
+                        let mut target = RefTarget::Id(base.clone());
+                        let mut parent = P::Id(base);
+                        for _ in 0..r.usize(3) {
+                            commits.push(NewCommit { parents: vec![parent] });
+                            parent = P::Mark(commits.len() - 1);
+                            target = RefTarget::Mark(commits.len() - 1);
+                        }
+                        ops.push(RefOp::SetBranch(name.to_string(), target));
+                        touched.insert(format!("b/{name}"));
+                        kinds |= K_NEW_BRANCH | K_FORK_OLD;
+                    }
+                }
+                6..=8 if !bnames.is_empty() => {
+                    // a side branch that never was a ref: grown from an old commit and merged into a tracked branch
+                    let b = r.pick(&bnames).clone();
+                    let mut parent = P::Id(self.old_commit(r));
+                    for _ in 0..1 + r.usize(2) {
+                        commits.push(NewCommit { parents: vec![parent] });
+                        parent = P::Mark(commits.len() - 1);
+                    }
+                    commits.push(NewCommit { parents: vec![P::Id(self.branches[&b].clone()), parent] });
+                    if r.chance(1, 3) {
+                        commits.push(NewCommit { parents: vec![P::Mark(commits.len() - 1)] });
+                    }
+                    ops.push(RefOp::SetBranch(b.clone(), RefTarget::Mark(commits.len() - 1)));
+                    touched.insert(format!("b/{b}"));
+                    kinds |= K_MERGE | K_MERGE_OLD;
+                }
+                9 | 10 => {
+                    let free: Vec<&&str> = TAG_NAMES.iter().filter(|n| !self.tags.contains_key(**n) && !touched.contains(&format!("t/{n}"))).collect();
+                    if !free.is_empty() {
+                        let name = **r.pick(&free);
+                        let annotated = r.bool();
+                        ops.push(RefOp::SetTag { name: name.to_string(), target: RefTarget::Id(self.old_commit(r)), annotated });
+                        touched.insert(format!("t/{name}"));
+                        kinds |= K_TAG_OLD | if annotated { K_NEW_ANNOT } else { K_NEW_LIGHT };
+                    }
+                }
+                11 if bnames.len() >= 2 => {
+                    let b = r.pick(&bnames).clone();
+                    let o = r.pick(&bnames).clone();
+                    if b != o && self.branches[&b] != self.branches[&o] {
+                        commits.push(NewCommit { parents: vec![P::Id(self.branches[&b].clone()), P::Id(self.branches[&o].clone())] });
+                        ops.push(RefOp::SetBranch(b.clone(), RefTarget::Mark(commits.len() - 1)));
+                        touched.insert(format!("b/{b}"));
+                        kinds |= K_MERGE;
+                    }
+                }
+                _ => {}
+            }
+        }
+        if ops.is_empty() {
+            let b = "main".to_string();
+            commits.push(NewCommit { parents: vec![P::Id(self.branches[&b].clone())] });
+            ops.push(RefOp::SetBranch(b, RefTarget::Mark(commits.len() - 1)));
+            kinds |= K_FF;
+        }
+        self.apply(&commits, ops)?;
+        Ok(kinds)
     }
 
     /// one random update round; returns the bitmask of update kinds
@@ -821,6 +1005,34 @@ struct StepCtx<'a> {
     initial_with_depth: bool,
     /// commits pointed to by server tags that the gitoxide twin had before this step
     pre_present: &'a BTreeSet<String>,
+    /// scenario of the `shallow-evolve` class
+    evolve: bool,
+    /// the shallow operation of this step
+    op: ShallowOp,
+    /// contents of the shallow files (gitoxide's twin, git's twin) before this step; None for the initial step
+    pre_shallow: Option<(BTreeSet<String>, BTreeSet<String>)>,
+}
+
+impl StepCtx<'_> {
+    /// `<op>-into-<state of gitoxide's twin before the step>`
+    fn op_into(&self) -> String {
+        let what = if self.op_class == "clone" {
+            "clone"
+        } else {
+            match self.op {
+                ShallowOp::NoChange => "plain-fetch",
+                ShallowOp::Depth(_) => "depth-fetch",
+                ShallowOp::Deepen(_) => "deepen-fetch",
+                ShallowOp::Unshallow => "unshallow-fetch",
+            }
+        };
+        let into = match &self.pre_shallow {
+            None => "empty",
+            Some((a, _)) if a.is_empty() => "complete",
+            Some(_) => "shallow",
+        };
+        format!("{what}-into-{into}")
+    }
 }
 
 /// which of `ids` exist in the repository at `path` (one `cat-file --batch-check`)
@@ -875,11 +1087,21 @@ fn compare(ctx: &mut Ctx, s: &StepCtx, check_head: bool) -> bool {
                             }
                         })
                         .unwrap_or("nonzero-exit");
-                    ctx.violation(
-                        &format!("fsck|{}|{}|shallow-{}", s.op_class, class, if shallow_of(&git_dir(s.a, s.bare)).is_empty() { "no" } else { "yes" }),
-                        "git fsck reports problems in the repository fetched by gitoxide (and none in the git twin)",
-                        witness(json!({"fsck": text.lines().take(20).collect::<Vec<_>>()})),
-                    );
+                    if s.evolve && matches!(class, "missing" | "broken-link") {
+                        ctx.violation(
+                            &format!("connectivity|missing-objects-after-{}", s.op_into()),
+                            "objects reachable from the refs are missing after the step performed by gitoxide (git fsck: broken link/missing), while the twin \
+                             driven by git with the same commands is connected",
+                            witness(json!({"fsck": text.lines().take(20).collect::<Vec<_>>(), "shallow_before": s.pre_shallow.as_ref().map(|p| &p.0),
+                                           "shallow_after": shallow_of(&git_dir(s.a, s.bare))})),
+                        );
+                    } else {
+                        ctx.violation(
+                            &format!("fsck|{}|{}|shallow-{}", s.op_class, class, if shallow_of(&git_dir(s.a, s.bare)).is_empty() { "no" } else { "yes" }),
+                            "git fsck reports problems in the repository fetched by gitoxide (and none in the git twin)",
+                            witness(json!({"fsck": text.lines().take(20).collect::<Vec<_>>()})),
+                        );
+                    }
                     ok = false;
                 } else {
                     ctx.count("fsck_fails_on_git_twin_too");
@@ -1037,6 +1259,76 @@ fn compare(ctx: &mut Ctx, s: &StepCtx, check_head: bool) -> bool {
             }
         }
     }
+    // ---- shallow file: rules that do not depend on which tips a client re-requests
+    if let Some((pa, pb)) = &s.pre_shallow {
+        if s.op == ShallowOp::NoChange && (!pa.is_empty() || !pb.is_empty()) {
+            ctx.count("shallow_plain_fetch_boundary_checks");
+            if *pb == sb && *pa != sa {
+                // without deepen arguments a complete server sends no shallow-info: nothing may be written
+                let class = if sa.is_empty() {
+                    "emptied"
+                } else if sa.is_superset(pa) {
+                    "grew"
+                } else if sa.is_subset(pa) {
+                    "shrank"
+                } else {
+                    "changed"
+                };
+                ctx.violation(
+                    &format!("shallow|plain-fetch-changed-boundary|{class}"),
+                    "a fetch without depth arguments changed gitoxide's shallow file (git's twin keeps it: the server sends no shallow updates for such a fetch)",
+                    witness(json!({"gitoxide_before": pa, "gitoxide_after": sa, "git_before_and_after": sb})),
+                );
+                ok = false;
+            }
+        }
+        if s.op == ShallowOp::Unshallow && !sa.is_empty() && matches!(s.plan.spec_class, "default" | "mirror" | "heads-to-heads" | "tags-explicit" | "tags-explicit-forced") {
+            ctx.count("shallow_unshallow_leftover_checks");
+            for x in sa.iter().filter(|x| !sb.contains(*x)) {
+                // every server branch is wanted with infinite depth: a boundary commit within their history must have been reported as `unshallow`
+                match git::run(&s.srv.path, &["for-each-ref", "--format=%(refname)", "--contains", x, "refs/heads"]) {
+                    Ok(o) if o.ok && !o.text().trim().is_empty() => {
+                        ctx.violation(
+                            "shallow|unshallow-left-reachable-boundary",
+                            "after an unshallow fetch gitoxide's shallow file still lists a commit in the history of a fetched server branch (git's twin does not)",
+                            witness(json!({"entry": x, "server_branches_containing_it": o.text().lines().take(5).collect::<Vec<_>>(), "gitoxide_shallow": sa, "git_shallow": sb})),
+                        );
+                        ok = false;
+                        break;
+                    }
+                    _ => {}
+                }
+            }
+        }
+    }
+    if !sa.is_empty() {
+        // every boundary entry must name a commit that is present (also tells whether history below the boundary has arrived: root)
+        let root = s.srv.commits.first().cloned().unwrap_or_default();
+        let input: String = sa.iter().chain(std::iter::once(&root)).map(|i| format!("{i}\n")).collect();
+        if let Ok(o) = git::run_in(s.a, &["cat-file", "--batch-check=%(objectname) %(objecttype)"], input.as_bytes()) {
+            if o.ok {
+                ctx.count("shallow_entry_checks");
+                let text = o.text();
+                let types: HashMap<&str, &str> = text.lines().filter_map(|l| l.split_once(' ')).collect();
+                if s.evolve && types.get(root.as_str()) == Some(&"commit") && !sa.contains(&root) {
+                    ctx.count("evolve_shallow_twin_holds_root_commit");
+                }
+                if let Some(bad) = sa.iter().find(|x| types.get(x.as_str()) != Some(&"commit")) {
+                    let b_ok = sb.iter().all(|x| git::run(s.b, &["cat-file", "-e", &format!("{x}^{{commit}}")]).map(|o| o.ok).unwrap_or(false));
+                    if b_ok {
+                        ctx.violation(
+                            &format!("shallow|entry-not-a-present-commit|{}", s.op_into()),
+                            "gitoxide's shallow file lists an id that is not a commit present in the repository",
+                            witness(json!({"entry": bad, "cat_file": types.get(bad.as_str()), "gitoxide_shallow": sa, "git_shallow": sb})),
+                        );
+                        ok = false;
+                    } else {
+                        ctx.count("shallow_entry_absent_in_git_twin_too");
+                    }
+                }
+            }
+        }
+    }
     if !ok {
         keep(s, "violation");
     }
@@ -1044,7 +1336,7 @@ fn compare(ctx: &mut Ctx, s: &StepCtx, check_head: bool) -> bool {
 }
 
 fn git_fetch(ctx: &mut Ctx, b: &Path, op: ShallowOp) -> Option<String> {
-    let mut args: Vec<String> = vec!["fetch".into(), "--no-write-fetch-head".into()];
+    let mut args: Vec<String> = vec!["fetch".into(), "--no-write-fetch-head".into(), "--no-auto-maintenance".into()];
     args.extend(op.git_args());
     args.push("origin".into());
     match git::run(b, &args) {
@@ -1072,19 +1364,40 @@ pub fn run(ctx: &mut Ctx) {
         "case = scenario (server DAG; setup clone-worktree|clone-bare|init-bare|init-worktree; protocol 0|1|2; negotiation default|consecutive|skipping|noop; \
          refspec class; tagOpt default|--no-tags|--tags; initial depth) followed by 1..4 server update rounds each fetched by both twins with a shallow \
          operation (nochange|depth|deepen|unshallow); one evaluation = one fsck + ref comparison after a clone/fetch step; \
-         distinct = (protocol, setup, refspec class, tagOpt, shallow op, shallow state, update-kind bitmask of the round)",
+         distinct = (protocol, setup, refspec class, tagOpt, shallow op, shallow state, update-kind bitmask of the round). \
+         Class shallow-evolve (first, 45% of the budget): tiny trunk history, client starts depth-limited (1..3), 4..6 rounds in which the server gains \
+         history attached to OLD commits (branches forked off them, side branches merged into tracked branches, tags) fetched mostly without depth \
+         arguments; distinct additionally carries the class and the initial depth",
     );
     ctx.assume("git 2.39.5 fetch/clone with identical configuration is the reference; rounds after which git itself fails fatally are skipped");
-    let n = ctx.n(22, 400);
     let quick = ctx.quick();
-    ctx.cases("scenario", n, |ctx, r| {
+    // directed class first, with a share of the soft budget (workload bound only; a replayed case always runs)
+    let budget_s: f64 = std::env::var("GXV_BUDGET_S").ok().and_then(|s| s.parse().ok()).unwrap_or(if quick { 60.0 } else { 600.0 });
+    let share = budget_s * 0.45;
+    let n_evolve = ctx.n(16, 250);
+    ctx.cases("shallow-evolve", n_evolve, |ctx, r| {
+        if ctx.elapsed() > share {
+            ctx.count("evolve_scenarios_not_started_budget_share_used");
+            return;
+        }
+        ctx.count("evolve_scenarios");
+        scenario(ctx, r, quick, true);
+    });
+    let n = ctx.n(22, 400);
+    ctx.cases("scenario", n, |ctx, r| scenario(ctx, r, quick, false));
+}
+
+/// one scenario; `evolve`: the directed class (tiny history, depth-limited start, server history attaching to old commits)
+fn scenario(ctx: &mut Ctx, r: &mut Rng, quick: bool, evolve: bool) {
+    {
         let srv_dir = ctx.dir("srv");
         let a = ctx.dir("a");
         let b = ctx.dir("b");
         // clone wants non-existing destinations
         let _ = std::fs::remove_dir_all(&a);
         let _ = std::fs::remove_dir_all(&b);
-        let mut srv = match Srv::build(&srv_dir, r, quick) {
+        let built = if evolve { Srv::build_small(&srv_dir, r) } else { Srv::build(&srv_dir, r, quick) };
+        let mut srv = match built {
             Ok(s) => s,
             Err(e) => {
                 ctx.count("setup_failed");
@@ -1101,7 +1414,8 @@ pub fn run(ctx: &mut Ctx) {
             Setup::CloneBare => ("heads-to-heads", vec!["+refs/heads/*:refs/heads/*".into()]),
             _ => loop {
                 let c = r.pick(SPEC_CLASSES);
-                if !c.2 || bare {
+                // evolve: all-forced refspecs only (later depth/deepen requests are part of the class)
+                if (!c.2 || bare) && (!evolve || c.1.iter().all(|s| s.starts_with('+') || s.starts_with('^'))) {
                     break (c.0, c.1.iter().map(|s| s.to_string()).collect());
                 }
             },
@@ -1114,16 +1428,20 @@ pub fn run(ctx: &mut Ctx) {
             tagopt = if r.bool() { TagOpt::NoTags } else { TagOpt::AllTags };
         }
         let plan = Plan {
-            proto: *r.pick(&[0u8, 1, 2, 2, 2]),
-            algo: *r.pick(&[None, None, Some("consecutive"), Some("skipping"), Some("noop")]),
+            proto: if evolve { *r.pick(&[0u8, 1, 1, 2, 2, 2]) } else { *r.pick(&[0u8, 1, 2, 2, 2]) },
+            algo: if evolve {
+                *r.pick(&[None, None, None, Some("consecutive"), Some("skipping"), Some("noop")])
+            } else {
+                *r.pick(&[None, None, Some("consecutive"), Some("skipping"), Some("noop")])
+            },
             setup,
             tagopt,
             spec_class,
             specs,
-            shallow0: if r.chance(1, 4) { Some(1 + r.below(3) as u32) } else { None },
+            shallow0: if evolve || r.chance(1, 4) { Some(1 + r.below(3) as u32) } else { None },
         };
         // server HEAD variety matters for clones only
-        if matches!(setup, Setup::CloneWorktree | Setup::CloneBare) {
+        if !evolve && matches!(setup, Setup::CloneWorktree | Setup::CloneBare) {
             match r.below(8) {
                 0 => {
                     // not at a branch tip: without the symref capability git guesses a branch with the same id and attaches HEAD to it
@@ -1144,8 +1462,13 @@ pub fn run(ctx: &mut Ctx) {
                 _ => {}
             }
         }
-        if r.chance(1, 6) && std::fs::write(srv.path.join("refs/heads/sym"), "ref: refs/heads/main\n").is_ok() {
+        if !evolve && r.chance(1, 6) && std::fs::write(srv.path.join("refs/heads/sym"), "ref: refs/heads/main\n").is_ok() {
             srv.log.push("symbolic-ref refs/heads/sym refs/heads/main".into());
+        }
+        if evolve {
+            ctx.count(&format!("evolve_setup_{setup:?}"));
+            ctx.count(&format!("evolve_protocol_v{}", plan.proto));
+            ctx.count(&format!("evolve_initial_depth_{}", plan.shallow0.unwrap_or(0)));
         }
         ctx.count(&format!("setup_{setup:?}"));
         ctx.count(&format!("protocol_v{}", plan.proto));
@@ -1266,7 +1589,11 @@ pub fn run(ctx: &mut Ctx) {
         }
         ctx.eval();
         let shape0 = (plan.proto, setup, plan.spec_class, plan.tagopt, step0_op.class(), plan.algo);
-        ctx.distinct((shape0, "step0"));
+        if evolve {
+            ctx.distinct((shape0, "step0-evolve", plan.shallow0));
+        } else {
+            ctx.distinct((shape0, "step0"));
+        }
         let out0 = match gix_inner {
             Ok(o) => o,
             Err(e) => {
@@ -1286,7 +1613,7 @@ pub fn run(ctx: &mut Ctx) {
         }
         ctx.count_n("gix_negotiation_rounds", out0.rounds as u64);
         {
-            let s = StepCtx { plan: &plan, step: format!("initial {op_class0} ({})", step0_op.class()), op_class: op_class0, srv: &srv, a: &a, b: &b, bare, gix: &out0, git_stderr: git_err0, initial_with_depth: plan.shallow0.is_some(), pre_present: &BTreeSet::new() };
+            let s = StepCtx { plan: &plan, step: format!("initial {op_class0} ({})", step0_op.class()), op_class: op_class0, srv: &srv, a: &a, b: &b, bare, gix: &out0, git_stderr: git_err0, initial_with_depth: plan.shallow0.is_some(), pre_present: &BTreeSet::new(), evolve, op: step0_op, pre_shallow: None };
             if !compare(ctx, &s, is_clone) {
                 return;
             }
@@ -1296,17 +1623,24 @@ pub fn run(ctx: &mut Ctx) {
         }
 
         // ---- update rounds
-        let rounds = 1 + r.usize(4);
+        let rounds = if evolve { 4 + r.usize(3) } else { 1 + r.usize(4) };
         for round in 1..=rounds {
-            let kinds = match srv.mutate(r) {
+            let updated = if evolve && !r.chance(1, 5) { srv.evolve(r) } else { srv.mutate(r) };
+            let kinds = match updated {
                 Ok(k) => k,
                 Err(e) => {
                     ctx.inconclusive(&format!("server update failed: {}", e.chars().take(200).collect::<String>()));
                     return;
                 }
             };
-            let b_shallow = !shallow_of(&git_dir(&b, bare)).is_empty();
-            let a_shallow = !shallow_of(&git_dir(&a, bare)).is_empty();
+            let pre_shallow = (shallow_of(&git_dir(&a, bare)), shallow_of(&git_dir(&b, bare)));
+            let b_shallow = !pre_shallow.1.is_empty();
+            let a_shallow = !pre_shallow.0.is_empty();
+            if evolve && plan.tagopt == TagOpt::Default && pre_shallow.0 != pre_shallow.1 {
+                // which tags are followed depends on which old commits are present: not comparable any more
+                ctx.count("evolve_stopped_boundaries_differ_with_tag_following");
+                return;
+            }
             if a_shallow != b_shallow {
                 // would make --unshallow fatal on one side only; reported through the diagnostics counter, stop here
                 ctx.count("twins_disagree_on_being_shallow");
@@ -1316,7 +1650,25 @@ pub fn run(ctx: &mut Ctx) {
             // git re-requests only changed tips, gitoxide all of them, so after a depth/deepen request the two (correct) boundaries may
             // differ, and with them git's fast-forward decisions on truncated history: such requests only with all-forced refspecs.
             let all_forced = plan.specs.iter().all(|s| s.starts_with('+') || s.starts_with('^'));
-            let op = if !all_forced {
+            let op = if evolve {
+                // mostly ordinary fetches: the server learns the boundary from `shallow` lines alone
+                let boundary_ops = plan.tagopt != TagOpt::Default;
+                if !b_shallow {
+                    if boundary_ops && r.chance(1, 5) {
+                        ShallowOp::Depth(1 + r.below(3) as u32)
+                    } else {
+                        ShallowOp::NoChange
+                    }
+                } else {
+                    match r.below(10) {
+                        0..=5 => ShallowOp::NoChange,
+                        6 if boundary_ops => ShallowOp::Deepen(1 + r.below(2) as u32),
+                        7 if boundary_ops => ShallowOp::Depth(1 + r.below(4) as u32),
+                        8 if round >= 3 => ShallowOp::Unshallow,
+                        _ => ShallowOp::NoChange,
+                    }
+                }
+            } else if !all_forced {
                 if b_shallow && r.chance(1, 6) {
                     ShallowOp::Unshallow
                 } else {
@@ -1335,6 +1687,12 @@ pub fn run(ctx: &mut Ctx) {
                 ShallowOp::NoChange
             };
             ctx.count(&format!("fetch_op_{}", op.class()));
+            if evolve {
+                ctx.count(&format!("evolve_fetch_{}_into_{}", op.class(), if a_shallow { "shallow" } else { "complete" }));
+                if a_shallow && op == ShallowOp::NoChange && kinds & (K_FORK_OLD | K_MERGE_OLD | K_TAG_OLD) != 0 {
+                    ctx.count("evolve_plain_fetch_into_shallow_after_old_history_update");
+                }
+            }
             let Some(git_stderr) = git_fetch(ctx, &b, op) else {
                 ctx.count("git_fetch_failed_round_skipped");
                 return;
@@ -1343,7 +1701,11 @@ pub fn run(ctx: &mut Ctx) {
             let pre_present = present_objects(&a, &tag_commits);
             let res = guard(|| gix_fetch(&a, op));
             ctx.eval();
-            ctx.distinct((plan.proto, setup, plan.spec_class, plan.tagopt, op.class(), b_shallow, kinds));
+            if evolve {
+                ctx.distinct((plan.proto, setup, plan.spec_class, plan.tagopt, op.class(), b_shallow, kinds, "evolve", plan.shallow0));
+            } else {
+                ctx.distinct((plan.proto, setup, plan.spec_class, plan.tagopt, op.class(), b_shallow, kinds));
+            }
             let out = match res {
                 Err(p) => {
                     ctx.panic_violation(
@@ -1384,6 +1746,9 @@ pub fn run(ctx: &mut Ctx) {
                 git_stderr,
                 initial_with_depth: false,
                 pre_present: &pre_present,
+                evolve,
+                op,
+                pre_shallow: Some(pre_shallow),
             };
             if !compare(ctx, &s, false) {
                 return;
@@ -1393,5 +1758,8 @@ pub fn run(ctx: &mut Ctx) {
             }
         }
         ctx.count("scenarios_completed");
-    });
+        if evolve {
+            ctx.count("evolve_scenarios_completed");
+        }
+    }
 }
